@@ -23,7 +23,11 @@ EXPLANATION = (
     "optimisation passes cannot reject (no raise reachable in their handlers, no validator), passes the VM depends on are not "
     "optimisation-flagged, and Compile skips exactly the flagged passes when optimisation is off; R02.5 constant-cast folding "
     "computes, per target type, the expression the VM's CAST arm computes; R02.6 the constant pool is keyed by type and value; "
-    "R02.7 load forwarding is guarded by: load, adjacent previous instruction in the same block, a store, to the same variable."
+    "R02.7 load forwarding is guarded by: load, adjacent previous instruction in the same block, a store, to the same variable. "
+    "R02.8/R02.9 use lists are refreshed after swaps, optimisation visitors keep no state and have handlers only for the "
+    "analysed instruction classes. R02.10 what the interpreter does per instruction depends neither on operand kinds "
+    "(constant vs instruction) nor on state of the context across instructions (= R15.1); STORE/LOAD bind the value itself. "
+    "R02.11 the value table and the constant pool only grow; one reference allocator (= R14.1)."
 )
 NOT_DECIDED = "that the set of rewrites preserves semantics on every program (equality of optimised and unoptimised runs needs execution)"
 ASSUMPTIONS = ["value references are unique per function (C14 R14.1), so comparing references identifies operands"]
